@@ -213,6 +213,9 @@ func init() {
 	planRegistry["C07"] = planC07
 	planRegistry["C10"] = planC10
 	planRegistry["C13"] = planC13
+	planRegistry["C05"] = planC05
+	planRegistry["C11"] = planC11
+	planRegistry["C12"] = planC12
 }
 
 var planRegistry = map[string]func(tier string) *Plan{}
@@ -333,4 +336,151 @@ func planC13(tier string) *Plan {
 	p.MustAssert = []string{"INV"}
 	p.Explanation = "One-step symbolic execution with the node watch-only through either cause (own index -1, or the WatchOnly flag set with a valid index, primary and backup positions): any Broadcast, Block.Sign or PreBlock.SetData callback is a violation (asserted inside the callbacks), and Inv keeps the own slots empty."
 	return p
+}
+
+func planC11(tier string) *Plan {
+	want := []string{"C11"}
+	roles := []int{1, 0, -1}
+	if tier == "thorough" {
+		roles = []int{0, 1, 2, 3, -1}
+	}
+	am := []int{0, 1}
+	var cells []cellSpec
+	// O1..O8: one cell family per class of inadmissible input
+	cells = append(cells,
+		cellSpec{roles: roles, amevs: am, reqs: []int{0, 1}, apis: allMsgApis[:6], extra: map[string]int{"cls": 1}},
+		cellSpec{roles: roles, amevs: am, reqs: []int{0, 1}, apis: allMsgApis[:6], extra: map[string]int{"cls": 2}},
+		cellSpec{roles: roles, amevs: am, reqs: []int{0, 1}, apis: []int{apiPrepareRequest}, extra: map[string]int{"cls": 3}},
+		cellSpec{roles: roles, amevs: am, reqs: []int{0, 1}, apis: []int{apiPrepareRequest, apiPrepareResponse}, extra: map[string]int{"cls": 4}},
+		cellSpec{roles: roles, amevs: am, reqs: []int{0, 1}, apis: []int{apiPrepareResponse}, extra: map[string]int{"cls": 5}},
+		cellSpec{roles: roles, amevs: am, reqs: []int{0, 1}, apis: []int{apiPreCommit}, extra: map[string]int{"cls": 6}},
+		cellSpec{roles: roles, amevs: am, maxs: []int{0, 1}, reqs: []int{0, 1}, apis: []int{apiTimeout}, extra: map[string]int{"cls": 8}},
+		cellSpec{roles: []int{1}, amevs: am, reqs: []int{1}, tx: [][2]int{{1, 0}, {1, 1}, {2, 1}}, apis: []int{apiTransaction}, extra: map[string]int{"cls": 7}},
+		cellSpec{roles: roles, amevs: am, reqs: []int{0}, apis: []int{apiTransaction}, extra: map[string]int{"cls": 7}},
+	)
+	// O9 re-delivery of a stored payload, one cell per (type, slot)
+	for _, slot := range []int{0, 2, 3} {
+		for _, api := range []int{apiChangeView, apiPrepareRequest, apiPrepareResponse, apiCommit, apiPreCommit} {
+			if (api == apiPrepareRequest) != (slot == 0) {
+				continue
+			}
+			a := am
+			if api == apiPreCommit {
+				a = []int{1}
+			}
+			cells = append(cells, cellSpec{roles: []int{1, -1}, amevs: a, reqs: []int{0, 1}, apis: []int{api}, extra: map[string]int{"cls": 9, "slot": slot}})
+		}
+	}
+	// O10 panic freedom: every API from every Inv state, callbacks arbitrary
+	proles := []int{0, 1, -1}
+	cells = append(cells,
+		cellSpec{roles: proles, amevs: am, maxs: []int{0, 1}, reqs: []int{0, 1}, apis: []int{apiTimeout, apiNewTransaction}},
+		cellSpec{roles: proles, amevs: am, reqs: []int{0, 1}, apis: allMsgApis[:6]},
+		cellSpec{roles: []int{1}, amevs: am, reqs: []int{1}, tx: [][2]int{{1, 0}, {2, 1}, {2, 0}}, apis: []int{apiTransaction}},
+		cellSpec{roles: []int{1}, amevs: am, reqs: []int{1}, tx: [][2]int{{1, 0}}, apis: []int{apiTransaction}, extra: map[string]int{"ncache": 1, "ctype0": apiPrepareRequest, "csame": 1, "mntx": 1}},
+	)
+	cells = append(cells, recCells([]int{1, -1}, am, []int{0})...)
+	if tier == "thorough" {
+		cells = append(cells, cellSpec{roles: []int{2, 3}, amevs: am, maxs: []int{0, 1}, reqs: []int{0, 1}, apis: allApis})
+		cells = append(cells, recCells([]int{0, 2}, am, []int{0, 1})...)
+	}
+	p := stepPlan("C11", tier, want, cells, 900)
+	p.PanicsCount = true
+	p.MustCover = []string{"C11.class", "step.end"}
+	p.MustAssert = []string{"C11.unchanged", "C11.unchanged.rest", "C11.silent", "C11.O9.effects", "INV"}
+	p.Explanation = "One-step symbolic execution from an arbitrary Inv state with the input constrained to one class of inadmissible input per job (index outside the list, past height, current-view proposal from a non-primary, proposal/response of a lower view, response from the primary, pre-commit with anti-MEV off, unrequested transaction, timeout of another epoch) or to a payload already stored in its slot (re-delivery): the whole-state fingerprint (all Context tables by identity, proposal fields, transaction lists, flags, time references, rtt, cache size, timer model; LastSeenMessage of the sender excepted) must be equal before and after and no callback may fire (re-delivery: nothing but a recovery message). Every implicit Go panic (nil dereference, index/slice bounds, failed type assertion, nil map write, division by zero, nil func call) on any feasible path of any job is a violation."
+	p.Bounds["input_classes"] = "one job family per class of the statement; re-delivery per (payload type, slot)"
+	return p
+}
+
+func planC12(tier string) *Plan {
+	want := []string{"C12"}
+	am := []int{0, 1}
+	roles := []int{1}
+	if tier == "thorough" {
+		roles = []int{1, 2, 3}
+	}
+	cells := []cellSpec{
+		{roles: roles, amevs: am, reqs: []int{1}, tx: [][2]int{{1, 0}, {2, 1}, {2, 2}}, apis: []int{apiTransaction}, extra: map[string]int{"lasttx": 1}},
+		{roles: roles, amevs: am, reqs: []int{1}, tx: [][2]int{{2, 0}}, apis: []int{apiTransaction}},
+		// the view change and the next proposal inside the same call: a cached next-view proposal
+		{roles: roles, amevs: am, reqs: []int{1}, tx: [][2]int{{1, 0}}, apis: []int{apiTransaction}, extra: map[string]int{"lasttx": 1, "ncache": 1, "ctype0": apiPrepareRequest, "csame": 1, "mntx": 1}},
+		{roles: roles, amevs: am, reqs: []int{1}, tx: [][2]int{{1, 0}}, apis: []int{apiTransaction}, extra: map[string]int{"lasttx": 1, "ncache": 1, "ctype0": apiPrepareRequest, "csame": 1, "mntx": 2}},
+		// Inv 7 (every proposed-but-absent hash stays requestable) under the other APIs that touch the lists
+		{roles: roles, amevs: am, reqs: []int{0}, apis: []int{apiPrepareRequest}, extra: map[string]int{"mntx": 2}},
+		{roles: roles, amevs: am, reqs: []int{1}, tx: [][2]int{{1, 0}}, apis: []int{apiChangeView, apiTimeout, apiPrepareResponse}},
+	}
+	cells = append(cells, cellSpec{roles: roles, amevs: am, reqs: []int{0}, apis: []int{apiRecoveryMessage}, extra: map[string]int{"rreq": 1, "mntx": 1}})
+	p := stepPlan("C12", tier, want, cells, 900)
+	p.MustCover = []string{"C12.O2.last", "step.end", "event.broadcast.prepareresponse", "event.broadcast.changeview"}
+	p.MustAssert = []string{"C12.O2.answered", "INV"}
+	p.Bounds["transactions"] = "proposals with 1..2 transactions; the supplied transaction is the last missing one (answer owed) or one of two (no answer owed, bookkeeping only)"
+	p.Bounds["cache"] = "dedicated cells hold one cached PrepareRequest of a higher view at the same height (with 1..2 transactions) so that the view change and the next proposal happen inside OnTransaction"
+	p.Explanation = "One-step symbolic execution of the real OnTransaction from an arbitrary Inv state of a backup that has stored the proposal, holds all but the supplied transaction, has not answered and is not itself asking for a view change: after the call a PrepareResponse for that proposal or a ChangeView was broadcast. Inv conjunct 7 (every proposed hash that is not held is in MissingTransactions while an answer is owed) is asserted on every post-state, including the post-state after a nested view change that replays a cached proposal with its own transaction list."
+	return p
+}
+
+func planC05(tier string) *Plan {
+	want := []string{"C05"}
+	am := []int{0, 1}
+	dec := map[string]int{"decided": 1}
+	cells := []cellSpec{
+		// O1/O2: after the decision nothing but replies to recovery requests
+		{roles: []int{0, 1, -1}, amevs: am, maxs: []int{0, 1}, reqs: []int{1}, apis: []int{apiTimeout, apiNewTransaction}, extra: dec},
+		{roles: []int{0, 1, -1}, amevs: am, reqs: []int{1}, apis: allMsgApis[:6], extra: dec},
+		{roles: []int{1}, amevs: am, reqs: []int{1}, tx: [][2]int{{1, 1}}, apis: []int{apiTransaction}, extra: dec},
+		// O1: at most one ProcessBlock success per call, flag set
+		{roles: []int{0, 1, -1}, amevs: am, reqs: []int{0, 1}, apis: []int{apiCommit, apiPrepareRequest, apiPreCommit}, extra: map[string]int{"decided": 2}},
+	}
+	cells = append(cells, recCells([]int{1}, am, []int{1})...)
+	p := stepPlan("C05", tier, want, cells, 900)
+	for _, j := range resetJobs(tier) {
+		p.Jobs = append(p.Jobs, j)
+	}
+	p.MustCover = []string{"C05.O2.decided", "event.processblock", "step.end", "C05.reset.end", "C05.O5.cached"}
+	p.MustAssert = []string{"C05.O2.unchanged", "C05.O1.flag", "C05.O3.height", "C05.O3.validators", "C05.O4.cache", "C05.O5.commit", "INV"}
+	p.Explanation = "Two harnesses on the real code. (1) One step from an arbitrary DECIDED Inv state (blockProcessed) for every API: state fingerprint unchanged, no ProcessBlock/ProcessPreBlock, no timer call, no broadcast except a RecoveryMessage answering a RecoveryRequest; from undecided states at most one successful ProcessBlock per call and the flag is set with it. (2) Reset/Start from an arbitrary Inv state with a symbolic future-message cache, the ledger height jumping by any amount, the validator count and the own index changing: afterwards height = ledger+1, previous hash, validator list, own index, block times are the callbacks' values, view 0 unless M cached change views were replayed, tables sized to the new count holding only payloads of the entered height, flags cleared unless a block was processed in this very call, no cache inbox at or below the entered height (except re-cached higher-view payloads of that height), an admissible cached Commit/ChangeView of the entered height sits in its table."
+	p.Bounds["reset"] = "validator counts (old,new) in {(4,4),(4,7),(7,4),(1,4),(4,1)} (quick: first two), cache <= 2 payloads"
+	return p
+}
+
+func resetJobs(tier string) []*Job {
+	var js []*Job
+	type nn struct{ n, n2 int }
+	pairs := []nn{{4, 4}, {4, 7}}
+	if tier == "thorough" {
+		pairs = append(pairs, nn{7, 4}, nn{1, 4}, nn{4, 1})
+	}
+	for _, pr := range pairs {
+		for _, start := range []int{0, 1} {
+			for _, my2 := range []int{0, 1, -1} {
+				if my2 >= pr.n2 {
+					continue
+				}
+				for _, amev := range []int{0, 1} {
+					cts := []int{apiCommit, apiChangeView, apiPrepareResponse, apiPrepareRequest, apiPreCommit}
+					if start == 1 {
+						cts = []int{-1}
+					}
+					for _, ct := range cts {
+						if ct == apiPreCommit && amev == 0 {
+							continue
+						}
+						if ct < 0 {
+							for _, mx := range []int{0, 1} {
+								js = append(js, &Job{Pkg: dbftPkg, Entry: "H_reset", Solver: "z3-new", Want: []string{"C05"}, BudgetS: 900, Params: map[string]int{
+									"n": pr.n2, "my": my2, "prim": 0, "amev": amev, "maxtpb": mx, "n2": pr.n2, "my2": my2, "start": 1, "npool": mx}})
+							}
+							continue
+						}
+						j := &Job{Pkg: dbftPkg, Entry: "H_reset", Solver: "z3-new", Want: []string{"C05"}, BudgetS: 900, Params: map[string]int{
+							"n": pr.n, "my": 1 % pr.n, "prim": 0, "amev": amev, "maxtpb": 0, "req": 1, "ntx": 0, "txmask": 0,
+							"n2": pr.n2, "my2": my2, "start": start, "ncache": 1, "ctype0": ct, "mntx": 0}}
+						js = append(js, j)
+					}
+				}
+			}
+		}
+	}
+	return js
 }
